@@ -93,16 +93,22 @@ func limitChunkMatches(file *zoekt.FileMatch, limit int) int {
 			// lines from it, where N is the difference between the line number
 			// of the end of the old last Range and that of the new last Range.
 			// This calculation is correct in the presence of both context lines
-			// and multiline Ranges, taking into account that Content never has
-			// a trailing newline.
+			// and multiline Ranges. Content ends with the terminator of its last
+			// line unless that line is the unterminated last line of the file: a
+			// trailing newline does not start another line, so we skip it when
+			// counting and keep the terminator of the new last line instead.
 			n := cm.Ranges[len(cm.Ranges)-1].End.LineNumber - cm.Ranges[limit-1].End.LineNumber
 			if n > 0 {
-				for b := len(cm.Content) - 1; b >= 0; b-- {
+				end, terminator := len(cm.Content), 0
+				if end > 0 && cm.Content[end-1] == '\n' {
+					end, terminator = end-1, 1
+				}
+				for b := end - 1; b >= 0; b-- {
 					if cm.Content[b] == '\n' {
 						n -= 1
 					}
 					if n == 0 {
-						cm.Content = cm.Content[:b]
+						cm.Content = cm.Content[:b+terminator]
 						break
 					}
 				}
